@@ -1,2 +1,4 @@
 #!/bin/bash
-exec /verif/h/smod/build.sh c06 "$1"
+set -e
+/verif/h/smod/build.sh c06 "$1"
+/verif/h/c06api/build.sh /verif/build/c06api
